@@ -457,6 +457,8 @@ def rule_legal_src(ctx):
 
 RULES = [("flag-writers", rule_flag_writers), ("publish-order", rule_publish_order), ("stop-arm", rule_stop_arm),
          ("go-reaches-spawn", rule_go_reaches_spawn), ("no-swallow", rule_no_swallow), ("poll", rule_poll), ("legal-src", rule_legal_src)]
+# `stop` can only be honoured if the thread that reads it is never parked on anything but the input (C15.nonblocking)
+RULES += engine.premise_rules("c15", ["nonblocking"])
 
 
 def run(tier):
